@@ -30,12 +30,22 @@ pub fn run_case(rep: &mut Report, cfg: &EncCfg, front: Front, recipe: &PcmRecipe
     let max_write = if record && hc % 3 == 0 { [1usize, 5, 64, 1000][(hc / 3 % 4) as usize] } else { 0 };
     rep.count("sink", if max_write == 0 { "whole-writes".to_string() } else { format!("short-writes<={max_write}") });
     let replay = || replay_json(cfg, front, recipe, start);
+    // with an undeclared length a fifth of the cases end in stray data short of a whole PCM frame
+    // (samples for the sample writer, bytes for the byte writers): it is dropped, and nothing in
+    // STREAMINFO (MD5 included) may reflect it
+    let unit = match front {
+        Front::Sample => cfg.channels as usize,
+        Front::ByteLE | Front::ByteBE => cfg.channels as usize * (cfg.bps as usize).div_ceil(8),
+        Front::Channel => 1,
+    };
+    let tail = if !cfg.declare_total && unit > 1 && hc % 5 == 1 { 1 + (hc / 5) as usize % (unit - 1) } else { 0 };
+    rep.count("stray_tail_units", tail.min(9));
     let obs = mon::observe(|| {
         let mut m = Mem::with_data(junk.clone());
         m.record = record;
         m.max_write = max_write;
         m.pos = start as u64;
-        let r = encode_into(&mut m, cfg, front, &pcm, &[]);
+        let r = crate::api::encode_into_tail(&mut m, cfg, front, &pcm, &[], tail);
         (r, m)
     });
     rep.observe_cost(obs.cpu_us, obs.peak_alloc);
@@ -155,7 +165,7 @@ pub fn run_case(rep: &mut Report, cfg: &EncCfg, front: Front, recipe: &PcmRecipe
                         rep.count("regenerated_table", "identical");
                     }
                 }
-                Ok(Err(e)) => rep.violation("untruthful", "seektable:regeneration-error", format!("{e:?}"), replay()),
+                Ok(Err(e)) => rep.violation("untruthful", "seektable:regeneration-error", crate::api::show(&e), replay()),
                 Err(p) => rep.violation("panic", p.signature(), format!("generate_seektable: {}", p.msg), replay()),
             }
         }
